@@ -544,8 +544,11 @@ Definition apply_spec (spec : string) (v : string) : option string :=
            | None => None
            end
   end.
+(* var_expr.format(var=v); an all-digit name is a positional index for str.format: IndexError (None) *)
+Definition all_digits (s : string) : bool := sall (fun a => match digit_val a with Some _ => true | None => false end) s.
 Definition fmt_match (m : rmatch) (v : string) : option string :=
-  match m_spec m with None => Some v | Some spec => apply_spec spec v end.
+  if all_digits (m_var m) then None
+  else match m_spec m with None => Some v | Some spec => apply_spec spec v end.
 
 (* _replace(string, replace_vars, default); `fuel` bounds the nesting depth (Python: RecursionError -> ErrValue) *)
 Fixpoint replace_vars_in (q : quirks) (fuel : nat) (vars : list (string * string)) (default : option string)
